@@ -625,6 +625,7 @@ class World:
         self.job_event_factory = None  # f(job, phase) -> text of a structured event the fake job processes log
         self.evseq = 0
         self.shared_node_hosts = 0  # 0: every batch on its own host; k: batches share k host names
+        self.queue_hold = 0  # a busy cluster: every batch stays PENDING for at least this many virtual seconds
         self.exotic_plan = []  # [{"at": step, "steps": duration, "which": n}] unusual scheduler states (see _exotic_tick)
         self.fs_watch = set()  # basenames whose mutations are recorded as "fs" events
         self.prio = None  # per-thread priorities (by creation ordinal) or None
@@ -894,6 +895,11 @@ class World:
                 self.note("sbatch_fail", script=os.path.basename(script), mode="series", by=vt.proc.name)
                 self.fault_hits.append(("sbatch_fail_series", ordinal))
                 return SyncResult(1, "", "sbatch: error: Batch job submission failed: Socket timed out\n")
+            if k == "sbatch_fail_every" and ordinal % f["every"] == f["phase"] % f["every"]:
+                # a scheduler that rejects some submissions for good (a QOS / association limit): every k-th distinct batch
+                self.note("sbatch_fail", script=os.path.basename(script), mode="every", by=vt.proc.name)
+                self.fault_hits.append(("sbatch_fail_every", ordinal))
+                return SyncResult(1, "", "sbatch: error: Batch job submission failed: Job violates accounting/QOS policy\n")
             if k == "sbatch_fail_once" and f["nth"] == ordinal and not f.get("done"):
                 f["done"] = True
                 self.note("sbatch_fail", script=os.path.basename(script), mode="once", by=vt.proc.name)
@@ -907,7 +913,7 @@ class World:
         jid = str(self.next_slurm_id)
         self.next_slurm_id += 1
         rec.update(id=jid, state="PENDING", visible=True, vt=None, by=vt.proc.name, by_thread=vt.name,
-                   by_host=vt.host, start_ord=None, outdir=rec["output"])
+                   by_host=vt.host, start_ord=None, outdir=rec["output"], t_submit=self.clock)
         self.slurm[jid] = rec
         self.note("sbatch", id=jid, batch=rec["batch"], jobs=rec["jobs"], groups=rec["groups"],
                   results_on_disk=sorted(read_result_names(rec["output"])) if rec["output"] else [],
@@ -1121,6 +1127,12 @@ class World:
             for r in self.slurm.values():
                 r["display_until"] = 0  # nothing else can happen: the unusual state ends
             ev = self._enabled()
+        if not ev and self.queue_hold:
+            held = [r["t_submit"] + self.queue_hold for r in self.slurm.values() if r["state"] == "PENDING"]
+            if held and min(held) > self.clock:
+                self.clock = min(held)  # nothing else can happen: time passes until the scheduler starts a queued batch
+                self.effects += 1
+                ev = self._enabled()
         if not ev and any(getattr(vt, "paused_until", 0) > self.steps and vt.state != "done" for vt in self.threads):
             for vt in self.threads:
                 vt.paused_until = 0  # nothing else can happen: the held-back processes continue
@@ -1170,7 +1182,7 @@ class World:
             # would; the schedule can still pick any sleeper first (sleeps are lower bounds: a slow process)
             sleeping.sort(key=lambda e: getattr(e[1], "wake_time", 0.0))
         for jid, r in self.slurm.items():
-            if r["state"] == "PENDING":
+            if r["state"] == "PENDING" and self.clock >= r.get("t_submit", 0) + self.queue_hold:
                 ev.append(("start", jid))
         for j in self.jobs:
             if j.returncode is None and not j.died and j.vt.state != "done" and not j.vt.dead:
